@@ -11,6 +11,7 @@ from ..dataflow import ReachingDefs
 from ..loader import AnalysisError, ClassInfo, FuncInfo, dotted, is_self_attr, norm, walk_no_nested
 from ..report import Ctx
 from . import _c19_helpers as H
+from .. import guards as G
 
 LEVEL_TEXT = (
     "Static decision of structural clauses of C19 on /repo's current source (serving.py): (R19.1) the response writer "
@@ -20,15 +21,23 @@ LEVEL_TEXT = (
     "before end_headers; (R19.2) on every path through write() the bytes put on the wire are `hex(len) CRLF data CRLF` "
     "for non-empty data under chunking, the data alone otherwise, and nothing for an empty piece; the last-chunk "
     "`0 CRLF CRLF` is written once, after the iteration and after the headers were forced out, only under chunking; "
-    "status and every header pair reach send_response / send_header unfiltered; (R19.3) the chunk-size reader turns "
+    "status and every header pair reach send_response / send_header unfiltered, and the test that guards the status line / "
+    "header block is a latch that the block closes with a constant or a value established as non-None / truthy by a "
+    "dominating assert or guard - never by the truthiness of application data; (R19.3) the chunk-size reader turns "
     "every parse failure and a negative size into OSError and parses base 16; DechunkedInput.readinto reads a chunk "
     "header only when the previous chunk and its terminator are consumed, consumes the terminator exactly when the "
     "residual length reaches zero, raises OSError unless it is a line terminator, sets the end flag only on a freshly "
     "read zero size, and on every path of one loop iteration the residual length decreases by exactly the number of "
     "bytes requested from the stream, stored at the fill position and added to the returned count, never asking for more "
-    "than the residual length or the free space; every buffer store must be length-exact; (R19.4) make_environ sets "
+    "than the residual length or the free space; every buffer store must be length-exact (private methods of the "
+    "de-chunker that readinto calls as statements, and single-expression predicates, are inlined one level; a helper "
+    "with early returns is followed only if it does nothing but read and validate the terminator); (R19.4) make_environ sets "
     "wsgi.input_terminated under exactly the guard under which it wraps wsgi.input in DechunkedInput, skips header names "
-    "containing '_', leaves CONTENT_TYPE / CONTENT_LENGTH unprefixed, prefixes and comma-joins the others, unquotes the "
+    "containing '_', leaves CONTENT_TYPE / CONTENT_LENGTH unprefixed, prefixes and comma-joins the others (decided by "
+    "evaluating every path of one loop iteration on sample header names - generic, underscore, Content-Type/-Length "
+    "spellings and every name derived from a string constant of the loop - with the value and the earlier environ "
+    "content symbolic; an undecidable condition is followed on both edges), looks Transfer-Encoding up after the header "
+    "loop and de-chunks for 'chunked' in any letter case but not for '' / 'gzip' / 'identity', unquotes the "
     "path (re-attaching a '//' first segment) and only re-encodes the query.  It decides these clauses on all paths of "
     "the named functions; socket-level behaviour, http.server's own parsing and byte equality of whole exchanges are not decided."
 )
@@ -82,15 +91,16 @@ def _implied(expr: ast.AST, truth: bool) -> list[tuple[ast.AST, str]]:
     return [(expr, "T" if truth else "F")]
 
 
-def _expanded_guards(cfg: CFG, rd: ReachingDefs, node: Node, depth: int = 2) -> list[tuple[t.Any, str]]:
+def _expanded_guards(cfg: CFG, rd: ReachingDefs, node: Node, depth: int = 2, widen: t.Callable[[ast.AST], bool] | None = None) -> list[tuple[t.Any, str]]:
     """dominating guard edges of node; a guard that tests a local boolean with a single definition is replaced by the
     atoms that definition implies (helper variable extracted from a condition), provided no name used in the
-    definition is rebound between the definition and the test."""
+    definition is rebound between the definition and the test.  With ``widen``, locals inside an atom whose single
+    definition satisfies ``widen`` are replaced by that definition as well."""
 
     def expand(expr: ast.AST, label: str, at: Node, via: t.Any, d: int) -> list[tuple[t.Any, str]]:
         if isinstance(expr, ast.Name) and d > 0:
             defs = list(rd.reaching(at, expr.id))
-            if len(defs) == 1 and defs[0].kind == "assign" and defs[0].node is not None and isinstance(defs[0].value, (ast.BoolOp, ast.Compare, ast.UnaryOp)):
+            if len(defs) == 1 and defs[0].kind == "assign" and defs[0].node is not None and isinstance(defs[0].value, (ast.BoolOp, ast.Compare, ast.UnaryOp, ast.Call)):
                 df = defs[0]
                 stable = all(rd.reaching(df.node, n.id) == rd.reaching(at, n.id) for n in ast.walk(df.value) if isinstance(n, ast.Name))
                 if stable:
@@ -98,6 +108,11 @@ def _expanded_guards(cfg: CFG, rd: ReachingDefs, node: Node, depth: int = 2) -> 
                     for a, lab in _implied(df.value, label == "T"):
                         out += expand(a, lab, df.node, _Atom(a, df.node), d - 1)
                     return out
+        if widen is not None:
+            # hoisted sub-expressions (`klass = code // 100` ... `klass != 1`): expand locals whose value mentions a tested quantity
+            ex, used = _expand_locals(expr, at, rd, only_if=widen)
+            if used:
+                return [(_Atom(ex, at), label)]
         return [(via, label)]
 
     res: list[tuple[t.Any, str]] = []
@@ -126,6 +141,15 @@ def _handler_names(h: ast.ExceptHandler) -> list[str]:
         return ["BaseException"]
     elts = h.type.elts if isinstance(h.type, ast.Tuple) else [h.type]
     return [(dotted(e) or "?").rsplit(".", 1)[-1] for e in elts]
+
+
+def is_method(x: ast.AST) -> bool:
+    """the request method: self.command, environ['REQUEST_METHOD'] or environ.get('REQUEST_METHOD', ...)."""
+    if is_self_attr(x, "command"):
+        return True
+    if isinstance(x, ast.Subscript) and _const_str(x.slice) == "REQUEST_METHOD":
+        return True
+    return isinstance(x, ast.Call) and isinstance(x.func, ast.Attribute) and x.func.attr == "get" and bool(x.args) and _const_str(x.args[0]) == "REQUEST_METHOD"
 
 
 def _is_emit(c: ast.AST) -> bool:
@@ -211,10 +235,12 @@ def _response_rules(ctx: Ctx, rw: FuncInfo) -> None:
     ctx.floor("R19.1", "chunking decisions (flag := True)", len(flag_nodes), 1)
     for fnode in flag_nodes:
         assert fnode is not None
-        G = _expanded_guards(wcfg, rdw, fnode)
+        is_code = lambda x: isinstance(x, ast.Name) and x.id == code_name  # noqa: E731
+        is_proto = lambda x: is_self_attr(x, "protocol_version")  # noqa: E731
+        tested = lambda v: any(is_code(x) or is_method(x) or is_proto(x) for x in ast.walk(v))  # noqa: E731
+        G = _expanded_guards(wcfg, rdw, fnode, widen=tested)
         gtxt = sorted(f"{norm(t_.ast) if t_.kind == 'test' else t_.text()}:{l}" for t_, l in G)
         # status classes
-        is_code = lambda x: isinstance(x, ast.Name) and x.id == code_name  # noqa: E731
         adm, atoms = H.admitted(G, is_code, range(100, 600))
         adm_s = set(adm)
         desc = f"status atoms {[norm(a.ast) + ':' + l for a, l in atoms]}; chunking admitted for {_ranges(adm)}"
@@ -225,18 +251,10 @@ def _response_rules(ctx: Ctx, rw: FuncInfo) -> None:
         same = rdw.reaching(fnode, code_name) == rdw.reaching(sr_node, code_name) and bool(rdw.reaching(sr_node, code_name))  # type: ignore[arg-type]
         ctx.ob("R19.1", "the status tested is the status sent", same, f"`{code_name}` at send_response and at the decision have the same definitions: {same}", wfi, fnode.ast, "decision code is sent code")
         # HEAD
-        def is_method(x: ast.AST) -> bool:
-            if is_self_attr(x, "command"):
-                return True
-            if isinstance(x, ast.Subscript) and _const_str(x.slice) == "REQUEST_METHOD":
-                return True
-            return isinstance(x, ast.Call) and isinstance(x.func, ast.Attribute) and x.func.attr == "get" and bool(x.args) and _const_str(x.args[0]) == "REQUEST_METHOD"
-
         # a Subscript/Call matcher must not also match its own children
         madm, matoms = H.admitted(G, is_method, ["GET", "HEAD", "POST", "OPTIONS"])
         ctx.ob("R19.1", "no chunked framing for HEAD", bool(matoms) and "HEAD" not in madm and "GET" in madm, f"method atoms {[norm(a.ast) + ':' + l for a, l in matoms]}; admitted methods {madm}", wfi, fnode.ast, "chunk decision excludes HEAD")
         # protocol
-        is_proto = lambda x: is_self_attr(x, "protocol_version")  # noqa: E731
         padm, patoms = H.admitted(G, is_proto, ["HTTP/0.9", "HTTP/1.0", "HTTP/1.1"])
         ctx.ob("R19.1", "chunked framing only when the server speaks HTTP/1.1", bool(patoms) and padm == ["HTTP/1.1"], f"protocol atoms {[norm(a.ast) + ':' + l for a, l in patoms]}; admitted {padm}", wfi, fnode.ast, "chunk decision requires HTTP/1.1")
         # Content-Length
@@ -246,9 +264,13 @@ def _response_rules(ctx: Ctx, rw: FuncInfo) -> None:
             if isinstance(a, ast.Compare) and len(a.ops) == 1 and isinstance(a.ops[0], (ast.In, ast.NotIn)) and (_const_str(a.left) or "").lower() == "content-length" and isinstance(a.comparators[0], ast.Name):
                 if (isinstance(a.ops[0], ast.In) and l == "F") or (isinstance(a.ops[0], ast.NotIn) and l == "T"):
                     cl.append(t_)
-        ctx.ob("R19.1", "no chunked framing when the application set Content-Length", bool(cl), f"dominating guards {gtxt}", wfi, fnode.ast, "chunk decision excludes Content-Length")
+        # the same test spelled as a search: `not any(k.lower() == "content-length" for k, v in <the headers sent>)`
+        searches = [(t_, s_) for t_, l in G if (s_ := _content_length_search(t_.ast, l, wfi)) is not None]
+        ctx.ob("R19.1", "no chunked framing when the application set Content-Length", bool(cl) or bool(searches), f"dominating guards {gtxt}", wfi, fnode.ast, "chunk decision excludes Content-Length")
         for t_ in cl:
             _content_length_set(ctx, wfi, wcfg, rdw, t_)
+        for t_, (oks, facts) in searches:
+            ctx.ob("R19.1", "the Content-Length test sees every header name sent, in the case it compares with", oks, facts, wfi, t_.ast, "content-length test case folding")
         # Transfer-Encoding header
         ok = len(te_calls) == 1
         fact = f"{len(te_calls)} send_header('Transfer-Encoding', ...) call(s)"
@@ -319,7 +341,7 @@ def _response_rules(ctx: Ctx, rw: FuncInfo) -> None:
             tok = d.value.args[0].id  # type: ignore[union-attr]
             for dd in rdw.reaching(d.node, tok):  # type: ignore[arg-type]
                 v = dd.value
-                if dd.kind == "unpack" and dd.index == 0 and isinstance(v, ast.Call) and isinstance(v.func, ast.Attribute) and v.func.attr == "split" and isinstance(v.func.value, ast.Name):
+                if dd.kind == "unpack" and dd.index == 0 and isinstance(v, ast.Call) and isinstance(v.func, ast.Attribute) and v.func.attr in ("split", "partition") and isinstance(v.func.value, ast.Name):
                     src = origin(dd.node, v.func.value.id)  # type: ignore[arg-type]
                 elif dd.kind == "unpack" and dd.index == 0 and isinstance(v, ast.Tuple) and isinstance(v.elts[0], ast.Name):
                     src = origin(dd.node, v.elts[0].id)  # type: ignore[arg-type]
@@ -333,11 +355,114 @@ def _response_rules(ctx: Ctx, rw: FuncInfo) -> None:
         fact = f"`{code_name}` defined by {[norm(d.value) for d in defs if d.value is not None]}"
     ctx.ob("R19.2", "the status code sent is int(first token of the application's status)", ok, fact, wfi, sr_calls[0], "status code source")
 
+    # ---------------- R19.2: the header block goes out once ---------------
+    _latch_rule(ctx, wfi, wcfg, rdw, sr_node, nonlocals)
+
     # ---------------- R19.2: wire bytes of write() ----------------------
     _wire_rules(ctx, wfi, wcfg, dataname, flag)
 
     # ---------------- R19.2: executor -----------------------------------
     _executor_rules(ctx, xfi, wnode.name, flag, nonlocals)
+
+
+def _latch_rule(ctx: Ctx, wfi: FuncInfo, wcfg: CFG, rdw: ReachingDefs, sr_node: Node | None, nonlocals: set[str]) -> None:
+    """write() is called once per body piece; the status line and the header block must go out on the first call only.
+    So one of the tests that guard send_response must be a latch: a test of a variable that outlives the call (nonlocal
+    or attribute of self), which the guarded block - on every path to the normal exit - assigns a value under which
+    the test fails, *independent of application data*: a constant, or a name that a dominating assert / guard
+    establishes as non-None (for an `is None` test) or truthy (for a truthiness test).  `if not headers_sent:
+    headers_sent = <the application's header list>` is not a latch: an empty list re-opens it."""
+    assert sr_node is not None
+    assigned_here = {d for n in walk_no_nested(wfi.node) for d in ([tg.id for tg in n.targets if isinstance(tg, ast.Name)] if isinstance(n, ast.Assign) else [n.target.id] if isinstance(n, (ast.AnnAssign, ast.AugAssign)) and isinstance(n.target, ast.Name) else [])}
+
+    def latch_var(x: ast.AST) -> str | None:
+        if isinstance(x, ast.Name) and x.id in nonlocals:
+            return x.id
+        if is_self_attr(x):
+            return norm(x)
+        return None
+
+    def facts_at(node: Node) -> tuple[set[str], set[str]]:
+        """names known non-None / truthy at node (dominating asserts and guard edges; only names this function never rebinds)."""
+        nonnull: set[str] = set()
+        truthy: set[str] = set()
+        items: list[tuple[ast.AST, bool]] = []
+        for n in wcfg.nodes:
+            if n.kind == "stmt" and isinstance(n.ast, ast.Assert) and n is not node and wcfg.node_dominates(n, node):
+                items += [(a, lab == "T") for a, lab in _implied(n.ast.test, True)]
+        for t_, l in wcfg.guards(node):
+            if t_.kind == "test" and t_.ast is not None:
+                items.append((t_.ast, l == "T"))
+        for a, truth in items:
+            k, pos = G.canon(a)
+            val = truth == pos
+            if isinstance(a, ast.Name) and truth and a.id not in assigned_here:
+                truthy.add(a.id)
+                nonnull.add(a.id)
+            elif k.endswith(" is None") and not val:
+                nm = k[: -len(" is None")]
+                if nm.isidentifier() and nm not in assigned_here:
+                    nonnull.add(nm)
+        return nonnull, truthy
+
+    def closes(atom: ast.AST, label: str, var: str, value: ast.AST, at: Node) -> tuple[bool, str]:
+        """after `var = value` the atom no longer takes the edge `label`."""
+        is_var = lambda x: latch_var(x) == var  # noqa: E731
+        if isinstance(value, ast.Constant):
+            try:
+                r = bool(H.ev(atom, lambda x: (True, value.value) if is_var(x) else (False, None)))
+            except H.Unknown:
+                return False, f"`{norm(atom)}` cannot be evaluated for the constant {norm(value)}"
+            return r != (label == "T"), f"`{norm(atom)}` is {r} once `{var} = {norm(value)}`"
+        if isinstance(value, ast.Name):
+            nonnull, truthy = facts_at(at)
+            k, pos = G.canon(atom)
+            if k == f"{var} is None":
+                r = None if value.id not in nonnull else (False == pos)  # noqa: E712
+                why = f"`{value.id}` is {'established as non-None' if value.id in nonnull else 'not established as non-None'} there"
+            elif isinstance(atom, ast.Name) or (isinstance(atom, ast.Attribute)):
+                r = True if value.id in truthy else None
+                why = f"`{value.id}` is {'established as truthy' if value.id in truthy else 'not established as truthy (a value supplied by the application may be empty)'} there"
+            else:
+                r, why = None, "not a None / truthiness test"
+            if r is None:
+                return False, f"`{norm(atom)}` after `{var} = {value.id}`: {why}"
+            return r != (label == "T"), f"`{norm(atom)}` is {r} once `{var} = {value.id}` ({why})"
+        return False, f"`{var} = {norm(value)}` is neither a constant nor a checked name"
+
+    tried: list[str] = []
+    found = False
+    for t_, l in wcfg.guards(sr_node):
+        if t_.kind != "test" or t_.ast is None:
+            continue
+        atoms: list[tuple[ast.AST, str]] = [(t_.ast, l)]
+        if isinstance(t_.ast, ast.Name) and t_.ast.id not in nonlocals:
+            defs = list(rdw.reaching(t_, t_.ast.id))
+            if len(defs) == 1 and defs[0].kind == "assign" and defs[0].node is not None and isinstance(defs[0].value, (ast.BoolOp, ast.Compare, ast.UnaryOp, ast.Name, ast.Attribute)):
+                df = defs[0]
+                if all(rdw.reaching(df.node, m.id) == rdw.reaching(t_, m.id) for m in ast.walk(df.value) if isinstance(m, ast.Name)):
+                    atoms = _implied(df.value, l == "T")
+        for atom, lab in atoms:
+            vars_ = sorted({v for x in ast.walk(atom) if (v := latch_var(x)) is not None})
+            for var in vars_:
+                sets = []
+                for n in wcfg.nodes:
+                    if n.kind == "stmt" and isinstance(n.ast, (ast.Assign, ast.AnnAssign)) and n.ast.value is not None:
+                        tgs = n.ast.targets if isinstance(n.ast, ast.Assign) else [n.ast.target]
+                        if any(latch_var(tg) == var for tg in tgs) and wcfg.edge_dominates(t_, l, n):
+                            sets.append(n)
+                if not sets:
+                    tried.append(f"`{norm(atom)}`:{lab}: `{var}` is not assigned under the guard")
+                    continue
+                starts = wcfg.succ(t_, l)
+                always = all(wcfg.all_paths_pass(s_, [wcfg.exit], sets) for s_ in starts)
+                verdicts = [closes(atom, lab, var, n.ast.value, n) for n in sets]  # type: ignore[union-attr]
+                if always and all(v for v, _ in verdicts):
+                    found = True
+                    tried.append(f"latch `{norm(atom)}`:{lab}: " + "; ".join(w for _, w in verdicts))
+                else:
+                    tried.append(f"`{norm(atom)}`:{lab}: set on every returning path: {always}; " + "; ".join(w for _, w in verdicts))
+    ctx.ob("R19.2", "the status line and header block are written by the first write() only: their guard is a latch closed independently of application data", found, "; ".join(tried) or "send_response is not guarded by any test", wfi, sr_node.ast, "header block latch")
 
 
 def _ranges(codes: t.Iterable[int]) -> str:
@@ -387,6 +512,31 @@ def _content_length_set(ctx: Ctx, wfi: FuncInfo, wcfg: CFG, rdw: ReachingDefs, t
         facts.append(f"`{norm(e)}`: case folding `{fold}` agrees with constant {const!r}: {agrees}; is the name of the header being sent: {key_ok}")
         ok = ok and agrees and key_ok
     ctx.ob("R19.1", "the Content-Length test sees every header name sent, in the case it compares with", ok, "; ".join(facts) or f"no element of `{setname}` found", wfi, test.ast, "content-length test case folding")
+
+
+def _content_length_search(a: ast.AST | None, label: str, wfi: FuncInfo) -> tuple[bool, str] | None:
+    """`any(<name>.lower() == "content-length" for <name>, ... in <headers>)` taken on its false edge; returns
+    (case folding agrees and the iterable is the one whose pairs are sent, description) or None when ``a`` is no such test."""
+    if not (label == "F" and isinstance(a, ast.Call) and dotted(a.func) == "any" and len(a.args) == 1 and isinstance(a.args[0], (ast.GeneratorExp, ast.ListComp)) and len(a.args[0].generators) == 1):
+        return None
+    gen = a.args[0].generators[0]
+    elt = a.args[0].elt
+    if gen.ifs or not (isinstance(elt, ast.Compare) and len(elt.ops) == 1 and isinstance(elt.ops[0], ast.Eq)):
+        return None
+    sides = [elt.left, elt.comparators[0]]
+    const = next((_const_str(x) for x in sides if _const_str(x) is not None), None)
+    expr = next((x for x in sides if _const_str(x) is None), None)
+    if const is None or expr is None or const.lower() != "content-length":
+        return None
+    first = gen.target.elts[0] if isinstance(gen.target, (ast.Tuple, ast.List)) and gen.target.elts else None
+    chain = [nm for nm, _ in astq.method_chain(expr)]
+    fold = next((nm for nm in reversed(chain) if nm in ("lower", "upper", "casefold")), None)
+    agrees = fold is not None and getattr(const, fold)() == const
+    root = astq.chain_root(expr)
+    key_ok = isinstance(first, ast.Name) and isinstance(root, ast.Name) and root.id == first.id
+    sent = {norm(lp.iter) for lp in walk_no_nested(wfi.node) if isinstance(lp, ast.For) and any(_self_call(c, "send_header") for c in astq.calls(lp, nested=False))}
+    same_iter = norm(gen.iter) in sent
+    return agrees and key_ok and same_iter, f"`{norm(a)}`: case folding `{fold}` agrees with constant {const!r}: {agrees}; compares the header name: {key_ok}; searches the headers that are sent ({sorted(sent)}): {same_iter}"
 
 
 def _data_test(atom: ast.AST, dataname: str) -> str | None:
@@ -627,54 +777,89 @@ def _environ_rules(ctx: Ctx, me: FuncInfo) -> ClassInfo:
     UNQ = "urllib.parse.unquote"
     SPLIT = "urllib.parse.urlsplit"
 
-    def split_name(e: ast.AST, attr: str) -> str | None:
-        """`<ru>.<attr>` where every definition of <ru> reaching the dict is urlsplit(self.path)."""
-        if isinstance(e, ast.Attribute) and e.attr == attr and isinstance(e.value, ast.Name):
-            ds = rd.reaching(dnode, e.value.id)
-            if ds and all(d.value is not None and callee(d.value) == SPLIT and len(d.value.args) == 1 and is_self_attr(d.value.args[0], "path") for d in ds):  # type: ignore[union-attr]
-                return e.value.id
+    FIELDS = ["scheme", "netloc", "path", "query", "fragment"]
+
+    def is_split(v: ast.AST | None) -> bool:
+        return isinstance(v, ast.Call) and callee(v) == SPLIT and len(v.args) == 1 and not v.keywords and is_self_attr(v.args[0], "path")
+
+    def split_obj(v: ast.AST | None, at: Node | None) -> bool:
+        """urlsplit(self.path) itself, or a local that holds nothing else."""
+        if is_split(v):
+            return True
+        if isinstance(v, ast.Name) and at is not None:
+            ds = rd.reaching(at, v.id)
+            return bool(ds) and all(d.kind == "assign" and d.index is None and is_split(d.value) for d in ds)
+        return False
+
+    def role(e: ast.AST, at: Node, depth: int = 0) -> str | None:
+        """which component of urlsplit(self.path) an expression is, however it was bound: `<r>.path`, `<r>[2]`, a name
+        unpacked from the result, or a local copied from one of these."""
+        if isinstance(e, ast.Attribute) and e.attr in FIELDS:
+            return e.attr if split_obj(e.value, at) else None
+        if isinstance(e, ast.Subscript) and isinstance(e.slice, ast.Constant) and isinstance(e.slice.value, int) and 0 <= e.slice.value < 5:
+            return FIELDS[e.slice.value] if split_obj(e.value, at) else None
+        if isinstance(e, ast.Name) and depth < 3:
+            ds = rd.reaching(at, e.id)
+            roles: set[str | None] = set()
+            for d in ds:
+                if d.kind == "unpack" and d.index is not None and 0 <= d.index < 5 and split_obj(d.value, d.node) and isinstance(d.target, ast.Name) and not (d.stmt is not None and any(isinstance(x, ast.Starred) for x in ast.walk(d.stmt))):
+                    roles.add(FIELDS[d.index])
+                elif d.kind == "assign" and d.index is None and d.value is not None and d.node is not None and isinstance(d.value, (ast.Attribute, ast.Subscript, ast.Name)):
+                    roles.add(role(d.value, d.node, depth + 1))
+                else:
+                    roles.add(None)
+            if len(roles) == 1:
+                return roles.pop()
         return None
 
+    def resolve(e: ast.AST, at: Node) -> list[tuple[ast.AST, Node]]:
+        """the expressions a name stands for (its reaching plain assignments), or the expression itself."""
+        if isinstance(e, ast.Name):
+            ds = rd.reaching(at, e.id)
+            if ds and all(d.kind == "assign" and d.index is None and d.value is not None and d.node is not None for d in ds):
+                return [(d.value, d.node) for d in ds]  # type: ignore[misc]
+        return [(e, at)]
+
     q = entries.get("QUERY_STRING")
-    ok = q is not None and callee(q) == DANCE and len(q.args) == 1 and split_name(q.args[0], "query") is not None  # type: ignore[union-attr]
+    ok = q is not None and callee(q) == DANCE and len(q.args) == 1 and role(q.args[0], dnode) == "query"  # type: ignore[union-attr]
     ctx.ob("R19.4", "QUERY_STRING is the raw query of urlsplit(self.path), only re-encoded (never unquoted)", ok, f"`{norm(q) if q is not None else None}`", me, q if q is not None else dstmt, "QUERY_STRING source")
 
     p = entries.get("PATH_INFO")
     okp = False
     factp = f"`{norm(p) if p is not None else None}`"
-    raw_defs: list = []
-    if p is not None and callee(p) == DANCE and len(p.args) == 1 and isinstance(p.args[0], ast.Name):  # type: ignore[union-attr]
-        pn = p.args[0].id  # type: ignore[union-attr]
-        ds = rd.reaching(dnode, pn)
-        okp = bool(ds) and all(d.value is not None and callee(d.value) == UNQ and len(d.value.args) == 1 and not d.value.keywords and isinstance(d.value.args[0], ast.Name) for d in ds)  # type: ignore[union-attr]
-        factp += f"; `{pn}` = {[norm(d.value) for d in ds if d.value is not None]}"
+    raw_srcs: list[tuple[ast.AST, Node]] = []
+    if p is not None and callee(p) == DANCE and len(p.args) == 1 and not p.keywords:  # type: ignore[union-attr]
+        decoded = resolve(p.args[0], dnode)  # type: ignore[union-attr]
+        okp = bool(decoded) and all(callee(v) == UNQ and len(v.args) == 1 and not v.keywords for v, _ in decoded)  # type: ignore[attr-defined]
+        factp += f"; decoded by {[norm(v) for v, _ in decoded]}"
         if okp:
-            for d in ds:
-                raw_defs += [(dd, d) for dd in rd.reaching(d.node, d.value.args[0].id)]  # type: ignore[union-attr,arg-type]
+            for v, n in decoded:
+                raw_srcs += resolve(v.args[0], n)  # type: ignore[attr-defined]
     ctx.ob("R19.4", "PATH_INFO is the path percent-decoded once, then re-encoded", okp, factp, me, p if p is not None else dstmt, "PATH_INFO source")
     # the raw path: urlsplit().path, or "/" + netloc + path when there is no scheme but a netloc ('//' prefix)
     plain = 0
     slashed = 0
     bad = []
-    for dd, _ in raw_defs:
+    for v, n in raw_srcs:
+        g = set()
+        for t_, l in cfg.guards(n):
+            if t_.kind == "test" and t_.ast is not None:
+                r_ = role(t_.ast, t_)
+                g.add(f"{r_}:{l}" if r_ else f"{norm(t_.ast)}:{l}")
         rows: list[tuple[ast.AST, set[str]]] = []
-        v = dd.value
-        g = set(_gtext(cfg, dd.node)) if dd.node is not None else set()
         if isinstance(v, ast.IfExp):
-            tt, ff = _atoms_of(v.test)
+            tt, ff = _atoms_of(v.test, lambda x, n=n: role(x, n))
             rows.append((v.body, g | tt))
             rows.append((v.orelse, g | ff))
-        elif v is not None:
+        else:
             rows.append((v, g))
         for e, gg in rows:
-            if split_name(e, "path") is not None:
+            if role(e, n) == "path":
                 plain += 1
             elif isinstance(e, ast.JoinedStr) or isinstance(e, ast.BinOp):
                 parts = _concat_parts(e)
-                ru = None
-                shape = len(parts) == 3 and parts[0] == "/" and isinstance(parts[1], ast.AST) and isinstance(parts[2], ast.AST) and (ru := split_name(parts[1], "netloc")) is not None and split_name(parts[2], "path") == ru
-                guards_ok = shape and f"{ru}.scheme:F" in gg and f"{ru}.netloc:T" in gg
-                if guards_ok:
+                shape = len(parts) == 3 and parts[0] == "/" and isinstance(parts[1], ast.AST) and isinstance(parts[2], ast.AST) and role(parts[1], n) == "netloc" and role(parts[2], n) == "path"
+                if shape and "scheme:F" in gg and "netloc:T" in gg:
                     slashed += 1
                 else:
                     bad.append(f"`{norm(e)}` under {sorted(gg)}")
@@ -687,78 +872,7 @@ def _environ_rules(ctx: Ctx, me: FuncInfo) -> ClassInfo:
     if len(hloops) != 1 or not (isinstance(hloops[0].target, ast.Tuple) and len(hloops[0].target.elts) == 2 and all(isinstance(e, ast.Name) for e in hloops[0].target.elts)):
         raise AnalysisError("make_environ: expected one `for <key>, <value> in self.headers.items()` loop")
     lp = hloops[0]
-    kname = lp.target.elts[0].id  # type: ignore[union-attr]
-    inner = {id(x) for s in lp.body for x in ast.walk(s)}
-    hstores = [(s, k, v) for s, k, v in stores if id(s) in inner and isinstance(k, ast.Name)]
-    ctx.floor("R19.4", "environ stores inside the header loop", len(hstores), 1)
-    tests_in = [t_ for t_ in cfg.tests() if t_.kind == "test" and id(t_.ast) in inner]
-    # underscore test on the raw name
-    us = []
-    for t_ in tests_in:
-        a = t_.ast
-        if isinstance(a, ast.Compare) and len(a.ops) == 1 and isinstance(a.ops[0], (ast.In, ast.NotIn)) and _const_str(a.left) == "_" and isinstance(a.comparators[0], ast.Name):
-            if all(d.kind == "for" for d in rd.reaching(t_, a.comparators[0].id)) and a.comparators[0].id == kname:
-                us.append((t_, "F" if isinstance(a.ops[0], ast.In) else "T"))
-    # CONTENT_TYPE / CONTENT_LENGTH test
-    ct = []
-    for t_ in tests_in:
-        a = t_.ast
-        if isinstance(a, ast.Compare) and len(a.ops) == 1 and isinstance(a.ops[0], (ast.In, ast.NotIn)) and isinstance(a.left, ast.Name) and isinstance(a.comparators[0], (ast.Tuple, ast.List, ast.Set)):
-            vals = {_const_str(e) for e in a.comparators[0].elts}
-            ct.append((t_, "T" if isinstance(a.ops[0], ast.NotIn) else "F", vals))
-    for s, k, v in hstores:
-        sn = cfg.node_of(s)
-        assert sn is not None
-        gin = [(t_, l) for t_, l in cfg.guards(sn) if id(t_.ast) in inner]
-        skipped = any((t_, l) in [(a, b) for a, b in us] for t_, l in gin)
-        ctx.ob("R19.4", "header names containing '_' are skipped (tested on the name as received)", skipped, f"store `{norm(s)}`; underscore tests on the loop variable: {[norm(t_.ast) for t_, _ in us]}; guards inside the loop: {[norm(t_.ast) + ':' + l for t_, l in gin]}", me, s, "underscore names skipped")
-        only = [f"{norm(t_.ast)}:{l}" for t_, l in gin if (t_, l) not in us]
-        ctx.ob("R19.4", "every other header is stored (no further filter)", not only, f"further conditions on the store: {only}", me, s, "header store unfiltered")
-        # key canonicalisation dominates the store
-        canon = []
-        for cs, cv in astq.assigns_to(lp, k.id):  # type: ignore[union-attr]
-            if cv is None or id(cs) not in inner:
-                continue
-            chain = astq.method_chain(cv)
-            names = [nm for nm, _ in chain]
-            rep = [c for nm, c in chain if nm == "replace" and len(c.args) == 2 and _const_str(c.args[0]) == "-" and _const_str(c.args[1]) == "_"]
-            if "upper" in names and rep and isinstance(astq.chain_root(cv), ast.Name) and astq.chain_root(cv).id == k.id:  # type: ignore[union-attr]
-                cn = cfg.node_of(cs)
-                if cn is not None and cfg.node_dominates(cn, sn):
-                    canon.append(cs)
-        ctx.ob("R19.4", "the name is upper-cased with '-' -> '_' before it is stored", bool(canon), f"{[norm(c) for c in canon]}", me, s, "header name canonical form")
-        # prefix
-        pref = []
-        for cs, cv in astq.assigns_to(lp, k.id):  # type: ignore[union-attr]
-            if cv is None or id(cs) not in inner:
-                continue
-            parts = _concat_parts(cv) if isinstance(cv, (ast.JoinedStr, ast.BinOp)) else []
-            if len(parts) == 2 and parts[0] == "HTTP_" and isinstance(parts[1], ast.Name) and parts[1].id == k.id:
-                pref.append(cs)
-        okx = len(pref) == 1
-        factx = f"prefix assignments: {[norm(c) for c in pref]}"
-        if okx:
-            pn_ = cfg.node_of(pref[0])
-            assert pn_ is not None
-            gp = [(t_, l) for t_, l in cfg.guards(pn_) if id(t_.ast) in inner and (t_, l) not in us]
-            hit = [(t_, l, vals) for t_, l, vals in ct if (t_, l) in gp and isinstance(t_.ast, ast.Compare) and isinstance(t_.ast.left, ast.Name) and t_.ast.left.id == k.id]
-            exact = len(hit) == 1 and hit[0][2] == {"CONTENT_TYPE", "CONTENT_LENGTH"} and len(gp) == 1
-            reaches = sn.id in cfg.reach(pn_)
-            okx = exact and reaches
-            factx += f"; guarded exactly by `name not in (CONTENT_TYPE, CONTENT_LENGTH)`: {exact} (guards {[norm(t_.ast) + ':' + l for t_, l in gp]}); flows into the store: {reaches}"
-        ctx.ob("R19.4", "CONTENT_TYPE and CONTENT_LENGTH stay unprefixed, every other name gets HTTP_", okx, factx, me, pref[0] if pref else s, "HTTP_ prefix rule")
-        # comma join of repeated headers
-        joins = []
-        for cs, cv in astq.assigns_to(lp, v.id if isinstance(v, ast.Name) else "?"):
-            if cv is None or id(cs) not in inner or not isinstance(cv, (ast.JoinedStr, ast.BinOp)):
-                continue
-            parts = _concat_parts(cv)
-            if len(parts) == 3 and parts[1] == "," and isinstance(parts[0], ast.Subscript) and isinstance(parts[0].value, ast.Name) and parts[0].value.id == env and norm(parts[0].slice) == k.id and isinstance(parts[2], ast.Name) and parts[2].id == v.id:  # type: ignore[union-attr]
-                jn = cfg.node_of(cs)
-                present = [t_ for t_, l in cfg.guards(jn) if l == "T" and isinstance(t_.ast, ast.Compare) and isinstance(t_.ast.ops[0], ast.In) and norm(t_.ast.left) == k.id and norm(t_.ast.comparators[0]) == env]  # type: ignore[arg-type]
-                if present and sn.id in cfg.reach(jn):  # type: ignore[arg-type]
-                    joins.append(cs)
-        ctx.ob("R19.4", "a repeated header is joined as `<earlier>,<later>`", len(joins) == 1, f"{[norm(j) for j in joins]}", me, joins[0] if joins else s, "repeated header join")
+    _header_loop_rules(ctx, me, cfg, lp, env, stores)
 
     # ---- terminated <=> wrapped ------------------------------------------
     term = [(s, v) for s, k, v in stores if _const_str(k) == "wsgi.input_terminated"]
@@ -779,8 +893,30 @@ def _environ_rules(ctx: Ctx, me: FuncInfo) -> ClassInfo:
         same = _gids(cfg, tn) == _gids(cfg, wn)
         ctx.ob("R19.4", "wsgi.input_terminated is set under exactly the guard under which the input is de-chunked", same and isinstance(term[0][1], ast.Constant) and term[0][1].value is True,
                f"flag store guards {_gtext(cfg, tn)}; wrap guards {_gtext(cfg, wn)}; value `{norm(term[0][1])}`", me, term[0][0], "terminated iff wrapped")
-        chunked = [t_ for t_, l in cfg.guards(wn) if l == "T" and isinstance(t_.ast, ast.Compare) and len(t_.ast.ops) == 1 and isinstance(t_.ast.ops[0], (ast.Eq, ast.In)) and "chunked" in {_const_str(t_.ast.left), _const_str(t_.ast.comparators[0])} and any(_const_str(x) == "HTTP_TRANSFER_ENCODING" for x in ast.walk(t_.ast))]
-        ctx.ob("R19.4", "the input is de-chunked when Transfer-Encoding is chunked", len(chunked) == 1 and len([1 for t_, _ in cfg.guards(wn) if t_.kind == "test"]) == 1, f"wrap guards {_gtext(cfg, wn)}", me, wraps[0][0], "wrap guard is chunked transfer-encoding")
+        # the wrap guard, with hoisted locals expanded, evaluated over sample Transfer-Encoding values
+        def is_te(x: ast.AST) -> bool:
+            if isinstance(x, ast.Subscript) and isinstance(x.value, ast.Name) and x.value.id == env and _const_str(x.slice) == "HTTP_TRANSFER_ENCODING":
+                return True
+            return isinstance(x, ast.Call) and isinstance(x.func, ast.Attribute) and x.func.attr == "get" and isinstance(x.func.value, ast.Name) and x.func.value.id == env and bool(x.args) and _const_str(x.args[0]) == "HTTP_TRANSFER_ENCODING"
+
+        atoms_g: list[tuple[t.Any, str]] = []
+        others: list[str] = []
+        eval_nodes: list[Node] = []
+        for t_, l in cfg.guards(wn):
+            if t_.kind != "test" or t_.ast is None:
+                continue
+            ex, used = _expand_locals(t_.ast, t_, rd)
+            if H.mentions(ex, is_te):
+                atoms_g.append((_Atom(ex, t_), l))
+                eval_nodes += [t_] + used
+            else:
+                others.append(f"{norm(t_.ast)}:{l}")
+        adm, _ = H.admitted(atoms_g, is_te, ["chunked", "Chunked", "", "gzip", "identity"])
+        hl = [cfg.node_of(x) for x in hloops]
+        after_headers = all(h is not None and h.id not in cfg.reach(n) and cfg.edge_dominates(h, "F", n) for n in eval_nodes for h in hl)
+        okw = bool(atoms_g) and {"chunked", "Chunked"} <= set(adm) and not ({"", "gzip", "identity"} & set(adm)) and not others and after_headers
+        ctx.ob("R19.4", "the input is de-chunked when Transfer-Encoding is chunked", okw,
+               f"wrap guards on the header value {[norm(a.ast) + ':' + l for a, l in atoms_g]}: admitted from the samples {adm} (required: 'chunked' in any letter case, not '' / 'gzip' / 'identity'); other conditions {others}; header looked up after the header loop: {after_headers}", me, wraps[0][0], "wrap guard is chunked transfer-encoding")
         wv = wraps[0][1]
         arg = wv.args[0] if isinstance(wv, ast.Call) and len(wv.args) == 1 else None
         arg_ok = arg is not None and (is_self_attr(arg, "rfile") or (isinstance(arg, ast.Subscript) and isinstance(arg.value, ast.Name) and arg.value.id == env and _const_str(arg.slice) == "wsgi.input"))
@@ -789,22 +925,186 @@ def _environ_rules(ctx: Ctx, me: FuncInfo) -> ClassInfo:
     return dech
 
 
-def _atoms_of(test: ast.AST) -> tuple[set[str], set[str]]:
-    """guard texts implied by an expression being true / false (conjunctions and negations of atoms only)."""
+GENERIC_NAMES = ["Accept", "X-Forwarded-For", "accept-encoding", "Host", "Content-Type", "content-length", "CONTENT-TYPE", "Content-Length", "X_Under", "content_length", "Content_Type", "_", "x-a_b"]
+UNPREFIXED = ("CONTENT_TYPE", "CONTENT_LENGTH")
+
+
+def _header_loop_rules(ctx: Ctx, me: FuncInfo, cfg: CFG, lp: ast.For, env: str, stores: list) -> None:
+    """one iteration of the header loop, evaluated on every path for sample header names (see _c19_helpers.hval): which
+    environ key receives which value.  Decided per (name, `an earlier header of that name was stored` yes/no)."""
+    kname, vname = lp.target.elts[0].id, lp.target.elts[1].id  # type: ignore[union-attr]
+    inner = {id(x) for s in lp.body for x in ast.walk(s)}
+    hstores = {id(s) for s, k, v in stores if id(s) in inner}
+    ctx.floor("R19.4", "environ stores inside the header loop", len(hstores), 1)
+    head = cfg.node_of(lp)
+    assert head is not None
+    # other ways of changing the environ inside the loop are not modelled
+    for c in astq.calls(lp, nested=False):
+        if isinstance(c.func, ast.Attribute) and isinstance(c.func.value, ast.Name) and c.func.value.id == env and c.func.attr not in ("get", "keys", "__contains__"):
+            raise AnalysisError(f"make_environ: the environ is changed or read by `{norm(c)}` inside the header loop (not modelled)")
+    for s in ast.walk(lp):
+        if isinstance(s, (ast.AugAssign, ast.Delete)) and any(isinstance(x, ast.Name) and x.id == env for x in ast.walk(s.target if isinstance(s, ast.AugAssign) else ast.Tuple(elts=s.targets))):
+            raise AnalysisError(f"make_environ: `{norm(s)}` inside the header loop (not modelled)")
+    # sample names: generic ones plus every name a string constant of the loop could be compared with
+    samples = list(GENERIC_NAMES)
+    for x in ast.walk(lp):
+        if isinstance(x, ast.Constant) and isinstance(x.value, str) and len(x.value) > 1 and x.value.strip("_-, \r\n"):
+            cst = x.value
+            for v in (cst, cst.replace("_", "-"), cst.removeprefix("HTTP_"), cst.removeprefix("HTTP_").replace("_", "-")):
+                for w in (v, v.lower(), v.upper(), v.title()):
+                    if w and w not in samples:
+                        samples.append(w)
+    it_paths = H.loop_iteration_paths(cfg, head)
+    res = {k: {"ok": True, "fact": "", "n": 0} for k in ("skip", "store", "canon", "prefix", "join")}
+
+    def fail(k: str, fact: str) -> None:
+        if res[k]["ok"]:
+            res[k]["ok"] = False
+            res[k]["fact"] = fact
+
+    def show(v: t.Any) -> str:
+        return repr(v) if isinstance(v, str) else "+".join({"V": "<value>", "ENV": "<earlier value of %s>" % (tk[1:] or ("",))[0], "B": repr((tk[1:] or ("",))[0]), "?": "?" + str((tk[1:] or ("",))[0])}[tk[0]] for tk in v) or "''"
+
+    for raw in samples:
+        canon = raw.upper().replace("-", "_")
+        special = canon in UNPREFIXED
+        exp_key = canon if special else "HTTP_" + canon
+        for present in ((), (exp_key,)):
+            n_feasible = 0
+            for p in it_paths:
+                if p[-1][0] is cfg.raise_exit:
+                    continue
+                vals: dict[str, t.Any] = {kname: raw, vname: [H.HV]}
+                cond = lambda x, vals=vals, present=present: H.hcond(x, vals, env, present)  # noqa: E731
+                done: list[tuple[t.Any, t.Any]] = []
+                feasible = True
+                for node, label in p[1:-1]:
+                    a = node.ast
+                    if a is None:
+                        continue
+                    if node.kind == "test":
+                        if label in ("T", "F"):
+                            c = cond(a)
+                            if c is not None and c != (label == "T"):
+                                feasible = False
+                                break
+                        continue
+                    if node.kind != "stmt" or id(a) not in inner:
+                        continue
+                    if isinstance(a, (ast.Assign, ast.AnnAssign)) and a.value is not None:
+                        tgs = a.targets if isinstance(a, ast.Assign) else [a.target]
+                        val = H.hval(a.value, vals, env, cond)
+                        for tg in tgs:
+                            if isinstance(tg, ast.Name):
+                                vals[tg.id] = val
+                            elif isinstance(tg, (ast.Tuple, ast.List)):
+                                if isinstance(a.value, (ast.Tuple, ast.List)) and len(a.value.elts) == len(tg.elts) and all(isinstance(e, ast.Name) for e in tg.elts):
+                                    new = [H.hval(e, vals, env, cond) for e in a.value.elts]
+                                    for e, nv in zip(tg.elts, new):
+                                        vals[e.id] = nv  # type: ignore[attr-defined]
+                                else:
+                                    for e in ast.walk(tg):
+                                        if isinstance(e, ast.Name):
+                                            vals[e.id] = [("?", norm(a))]
+                            elif isinstance(tg, ast.Subscript) and isinstance(tg.value, ast.Name) and tg.value.id == env:
+                                done.append((H.hval(tg.slice, vals, env, cond), val))
+                    elif isinstance(a, ast.AugAssign) and isinstance(a.target, ast.Name):
+                        cur = vals.get(a.target.id, [("?", a.target.id)])
+                        vals[a.target.id] = H._htoks([cur, H.hval(a.value, vals, env, cond)]) if isinstance(a.op, ast.Add) else [("?", norm(a))]
+                if not feasible:
+                    continue
+                n_feasible += 1
+                where = f"header name {raw!r}" + (", repeated" if present else "") + f": {H.fmt_path([x for x in p if x[0].kind == 'test'])}"
+                if p[-1][0] is not head:
+                    fail("store", f"the loop is left before the remaining headers are copied; {where}")
+                    continue
+                if "_" in raw:
+                    res["skip"]["n"] += 1
+                    if done:
+                        fail("skip", f"stored as {[show(k) for k, _ in done]}; {where}")
+                    continue
+                res["store"]["n"] += 1
+                if len(done) != 1:
+                    fail("store", f"{len(done)} environ stores {[show(k) for k, _ in done]} (expected one); {where}")
+                    continue
+                key, val = done[0]
+                if key != exp_key:
+                    strip = lambda k: k.removeprefix("HTTP_") if isinstance(k, str) else k  # noqa: E731
+                    if strip(key) == strip(exp_key):
+                        fail("prefix", f"stored under {show(key)}, expected {exp_key!r}; {where}")
+                    else:
+                        fail("canon", f"stored under {show(key)}, expected {exp_key!r}; {where}")
+                    continue
+                res["canon"]["n"] += 1
+                res["prefix"]["n"] += 1
+                joined = [("ENV", exp_key), ("B", ","), H.HV]
+                good = [[H.HV]] if not present else ([joined] if not special else [[H.HV], joined])
+                res["join"]["n"] += 1
+                if val not in good:
+                    fail("join", f"value stored under {exp_key!r} is {show(val)}, expected {' or '.join(show(g) for g in good)}; {where}")
+            if not n_feasible:
+                raise AnalysisError(f"make_environ: no feasible path through the header loop for the name {raw!r}")
+    text = {
+        "skip": ("header names containing '_' are skipped (tested on the name as received)", "underscore names skipped"),
+        "store": ("every other header is stored, exactly once (no further filter)", "header store unfiltered"),
+        "canon": ("the name is upper-cased with '-' -> '_' before it is stored", "header name canonical form"),
+        "prefix": ("CONTENT_TYPE and CONTENT_LENGTH stay unprefixed, every other name gets HTTP_", "HTTP_ prefix rule"),
+        "join": ("a first header is stored as received, a repeated header is joined as `<earlier>,<later>`", "repeated header join"),
+    }
+    for k, (inst, cons) in text.items():
+        r = res[k]
+        if not r["n"] and all(x["ok"] for x in res.values()):
+            raise AnalysisError(f"make_environ: header loop: no path exercises the clause `{cons}`")
+        ctx.ob("R19.4", inst, bool(r["ok"]), r["fact"] or f"{r['n']} (sample name, path) combinations over {len(samples)} names and {len(it_paths)} iteration paths, all as required", me, lp, cons)
+
+
+def _expand_locals(e: ast.AST, at: Node, rd: ReachingDefs, depth: int = 3, only_if: t.Callable[[ast.AST], bool] | None = None) -> tuple[ast.AST, list[Node]]:
+    """copy of ``e`` in which every local with a single plain assignment reaching ``at`` is replaced by the assigned
+    expression (hoisted sub-expression), provided no name used in that expression is rebound in between.  Also returns
+    the CFG nodes of the definitions used."""
+    used: list[Node] = []
+
+    def sub(x: ast.AST, at_: Node, d: int) -> ast.AST:
+        class T(ast.NodeTransformer):
+            def visit_Name(self, n: ast.Name) -> ast.AST:  # noqa: N802
+                if not isinstance(n.ctx, ast.Load) or d <= 0:
+                    return n
+                defs = list(rd.reaching(at_, n.id))
+                if len(defs) != 1:
+                    return n
+                df = defs[0]
+                if df.kind != "assign" or df.index is not None or df.value is None or df.node is None or isinstance(df.value, (ast.Lambda, ast.Dict, ast.ListComp, ast.SetComp, ast.DictComp, ast.GeneratorExp)):
+                    return n
+                if not all(rd.reaching(df.node, m.id) == rd.reaching(at_, m.id) for m in ast.walk(df.value) if isinstance(m, ast.Name) and m.id != n.id):
+                    return n
+                if only_if is not None and not only_if(df.value):
+                    return n
+                used.append(df.node)
+                return sub(df.value, df.node, d - 1)
+
+        return T().visit(ast.parse(ast.unparse(x), mode="eval").body)
+
+    return ast.fix_missing_locations(sub(e, at, depth)), used
+
+
+def _atoms_of(test: ast.AST, name_of: t.Callable[[ast.AST], str | None] = lambda x: None) -> tuple[set[str], set[str]]:
+    """guard texts implied by an expression being true / false (conjunctions and negations of atoms only); an atom is
+    named by ``name_of`` (its role) when that gives one, else by its source text."""
     if isinstance(test, ast.UnaryOp) and isinstance(test.op, ast.Not):
-        a, b = _atoms_of(test.operand)
+        a, b = _atoms_of(test.operand, name_of)
         return b, a
     if isinstance(test, ast.BoolOp) and isinstance(test.op, ast.And):
         tt: set[str] = set()
         for v in test.values:
-            tt |= _atoms_of(v)[0]
+            tt |= _atoms_of(v, name_of)[0]
         return tt, set()
     if isinstance(test, ast.BoolOp) and isinstance(test.op, ast.Or):
         ff: set[str] = set()
         for v in test.values:
-            ff |= _atoms_of(v)[1]
+            ff |= _atoms_of(v, name_of)[1]
         return set(), ff
-    return {f"{norm(test)}:T"}, {f"{norm(test)}:F"}
+    nm = name_of(test) or norm(test)
+    return {f"{nm}:T"}, {f"{nm}:F"}
 
 
 def _concat_parts(e: ast.AST) -> list[t.Any]:
@@ -850,6 +1150,12 @@ def _dechunker_rules(ctx: Ctx, cls: ClassInfo) -> None:
         raise AnalysisError(f"{cls.name}: expected one chunk-size reader (a method calling int()), found {[f.name for f in readers]}")
     lr = readers[0]
     ctx.saw(lr)
+    # one level of helper inlining: statement calls `self._h(...)` and single-expression predicates `self._p()`
+    ri_src = ri
+    xnode, inlined = H.inline_methods(ri.node, {nm: fi.node for nm, fi in cls.methods.items()}, exclude={lr.name, "readinto", "__init__"})
+    if inlined:
+        ri = FuncInfo(ri.module, xnode, ri.qualname, ri.cls)
+        ctx.saw(*[cls.methods[nm] for nm in sorted(inlined)])
     res = [tg.attr for s in walk_no_nested(ri.node) if isinstance(s, ast.Assign) and _self_call(s.value, lr.name) for tg in s.targets if is_self_attr(tg)]
     if len(set(res)) != 1:
         raise AnalysisError(f"readinto: expected `self.<residual> = self.{lr.name}()`, found targets {res}")
@@ -881,9 +1187,11 @@ def _dechunker_rules(ctx: Ctx, cls: ClassInfo) -> None:
     ctx.ob("R19.3", "a fresh stream has no residual chunk and is not finished", ok, f"{residual} = {norm(inits[residual]) if residual in inits else None}; {done_attr} = {norm(inits[done_attr]) if done_attr in inits else None}", init, init.node, "initial state")
     # other writers of the state
     for nm, fi in cls.methods.items():
-        if fi is ri or fi is init:
+        if fi is ri_src or fi is init or nm in inlined:
             continue
         w = [s for s in ast.walk(fi.node) if isinstance(s, (ast.Assign, ast.AugAssign)) and any(is_self_attr(tg, residual) or is_self_attr(tg, done_attr) for tg in (s.targets if isinstance(s, ast.Assign) else [s.target]))]
+        if w and any(_self_call(c, nm) for c in astq.calls(ri.node)):
+            raise AnalysisError(f"readinto calls {fi.qualname}, which writes the chunk state (`{norm(w[0])}`) and cannot be inlined")
         if w:
             ctx.ob("R19.3", "residual length and end flag are written only by readinto", False, f"{fi.qualname}: {[norm(x) for x in w]}", fi, w[0], f"state written in {nm}")
 
@@ -911,7 +1219,25 @@ def _dechunker_rules(ctx: Ctx, cls: ClassInfo) -> None:
 
     h_nodes = [n for n in cfg.nodes if n.kind == "stmt" and isinstance(n.ast, ast.Assign) and sym.is_header_read(n.ast.value) and any(sym.is_res(tg) for tg in n.ast.targets)]
     stray_hdr = [n for n in cfg.nodes if has_call(n, sym.is_header_read) and n not in h_nodes]
-    t_nodes = [n for n in cfg.nodes if has_call(n, lambda x: sym.under_call(x, "readline"))]
+    # private helpers that read the terminator (extracted from readinto): followed one level
+    term_helpers: dict[str, FuncInfo] = {}
+    for nm, fi in cls.methods.items():
+        if fi is ri_src or fi is init or fi is lr:
+            continue
+        if any(sym.under_call(x) or is_self_attr(x, under_attr) for x in ast.walk(fi.node)):
+            called = [c for c in astq.calls(ri.node) if _self_call(c, nm)]
+            if not called:
+                continue  # not part of readinto's behaviour
+            if any(c.args or c.keywords for c in called):
+                raise AnalysisError(f"readinto: helper call `{norm(called[0])}` passes arguments (cannot be summarised)")
+            _terminator_helper(ctx, fi, sym, cls)
+            term_helpers[nm] = fi
+    handed = [c for c in astq.calls(ri.node) if any(is_self_attr(a, under_attr) for a in list(c.args) + [k.value for k in c.keywords])]
+    if handed:
+        raise AnalysisError(f"readinto: the underlying stream is handed to `{norm(handed[0])}` (reads through it cannot be followed)")
+    is_term_read = lambda x: sym.under_call(x, "readline") or any(_self_call(x, nm) for nm in term_helpers)  # noqa: E731
+    t_nodes = [n for n in cfg.nodes if has_call(n, is_term_read)]
+    helper_calls = {n.id for n in t_nodes if has_call(n, lambda x: any(_self_call(x, nm) for nm in term_helpers))}
     d_nodes = [n for n in cfg.nodes if n.kind == "stmt" and isinstance(n.ast, ast.Assign) and isinstance(n.ast.value, ast.Constant) and n.ast.value.value is True and any(is_self_attr(tg, done_attr) for tg in n.ast.targets)]
     ctx.floor("R19.3", "chunk header reads in readinto", len(h_nodes), 1)
     if stray_hdr:
@@ -953,38 +1279,12 @@ def _dechunker_rules(ctx: Ctx, cls: ClassInfo) -> None:
     check([cfg.exit], lambda s: s[1] == (s[0] == "NZ"), "when readinto returns, a terminator is still owed exactly if chunk bytes remain", "exit state", "terminator owed <=> residual non-zero")
     check(d_nodes, lambda s: s[0] == "Z" and s[2], "the end flag is set only on a zero chunk size freshly read from a header", "end flag state", "residual zero, fresh from a header")
 
-    # terminator validation
+    # terminator validation (in readinto itself, or inside the helper that reads the terminator)
     for tn in t_nodes:
-        tcalls = [x for x in ast.walk(tn.ast) if sym.under_call(x, "readline")]  # type: ignore[arg-type]
-        okt = False
-        factt = f"`{tn.text()}`"
-        tests: list[tuple[Node, ast.AST]] = []
-        if tn.kind == "test":
-            tests = [(tn, tn.ast)]  # type: ignore[list-item]
-        elif isinstance(tn.ast, ast.Assign) and len(tn.ast.targets) == 1 and isinstance(tn.ast.targets[0], ast.Name):
-            vn = tn.ast.targets[0].id
-            tests = [(x, x.ast) for x in cfg.tests() if x.kind == "test" and isinstance(x.ast, ast.Compare) and isinstance(x.ast.left, ast.Name) and x.ast.left.id == vn and cfg.node_dominates(tn, x)]  # type: ignore[misc]
-        for x, a in tests:
-            if not (isinstance(a, ast.Compare) and len(a.ops) == 1 and isinstance(a.ops[0], (ast.In, ast.NotIn, ast.Eq, ast.NotEq))):
-                continue
-            try:
-                allowed = H.ev(a.comparators[0], lambda y: (False, None))
-            except H.Unknown:
-                continue
-            allowed_set = set(allowed) if isinstance(allowed, (tuple, frozenset)) else {allowed}
-            bad_label = "T" if isinstance(a.ops[0], (ast.NotIn, ast.NotEq)) else "F"
-            starts = cfg.succ(x, bad_label)
-            r: set[int] = set()
-            for s in starts:
-                r |= cfg.reach(s)
-            raises = [n for n in cfg.nodes if n.id in r and isinstance(n.ast, ast.Raise)]
-            leaves = bool(starts) and cfg.exit.id not in r and not any(n.id in r for n in cfg.nodes if n.kind == "join") and bool(raises) and all(astq.raised_name(n.ast) in OSERRORS for n in raises)  # type: ignore[arg-type]
-            only_nl = allowed_set <= LINE_TERMINATORS and {b"\r\n", b"\n"} <= allowed_set
-            factt = f"accepted terminators {sorted(allowed_set)} (CRLF and LF accepted, nothing but line terminators: {only_nl}); anything else raises OSError: {leaves}"
-            okt = only_nl and leaves
-            if okt:
-                break
-        ctx.ob("R19.3", "a missing or wrong chunk terminator raises OSError", okt, factt, ri, tcalls[0] if tcalls else tn.ast, "terminator validated")
+        if tn.id in helper_calls:
+            continue  # validated where the line is read: see _terminator_helper
+        okt, factt, site = _terminator_validated(cfg, tn, sym, in_loop=True)
+        ctx.ob("R19.3", "a missing or wrong chunk terminator raises OSError", okt, factt, ri, site, "terminator validated")
 
     # ---- per-iteration arithmetic ---------------------------------------
     head = [n for n in cfg.nodes if n.kind == "join" and n.ast is loop]
@@ -1066,6 +1366,79 @@ def _dechunker_rules(ctx: Ctx, cls: ClassInfo) -> None:
     # counter starts at zero
     cdefs = [v for s, v in astq.assigns_to(ri.node, counter) if not any(s is x for x in ast.walk(loop))]
     ctx.ob("R19.3", "the returned count starts at zero", len(cdefs) == 1 and isinstance(cdefs[0], ast.Constant) and cdefs[0].value == 0, f"`{counter}` initialised by {[norm(v) for v in cdefs if v is not None]}", ri, ri.node, "count starts at zero")
+
+
+def _terminator_validated(cfg: CFG, tn: Node, sym: "H.LoopSym", in_loop: bool) -> tuple[bool, str, ast.AST | None]:
+    """the line read at node ``tn`` is compared with a set of line terminators (CRLF and LF among them, nothing but line
+    terminators) and every other value leads to `raise OSError` without reaching the normal exit (or, inside the copy
+    loop, the next iteration)."""
+    tcalls = [x for x in ast.walk(tn.ast) if sym.under_call(x, "readline")]  # type: ignore[arg-type]
+    okt = False
+    factt = f"`{tn.text()}`"
+    tests: list[tuple[Node, ast.AST]] = []
+    if tn.kind == "test":
+        tests = [(tn, tn.ast)]  # type: ignore[list-item]
+    elif isinstance(tn.ast, (ast.Assign, ast.AnnAssign)):
+        tgs = tn.ast.targets if isinstance(tn.ast, ast.Assign) else [tn.ast.target]
+        if len(tgs) == 1 and isinstance(tgs[0], ast.Name):
+            vn = tgs[0].id
+            tests = [(x, x.ast) for x in cfg.tests() if x.kind == "test" and isinstance(x.ast, ast.Compare) and isinstance(x.ast.left, ast.Name) and x.ast.left.id == vn and cfg.node_dominates(tn, x)]  # type: ignore[misc]
+    for x, a in tests:
+        if not (isinstance(a, ast.Compare) and len(a.ops) == 1 and isinstance(a.ops[0], (ast.In, ast.NotIn, ast.Eq, ast.NotEq))):
+            continue
+        try:
+            allowed = H.ev(a.comparators[0], lambda y: (False, None))
+        except H.Unknown:
+            continue
+        allowed_set = set(allowed) if isinstance(allowed, (tuple, frozenset)) else {allowed}
+        bad_label = "T" if isinstance(a.ops[0], (ast.NotIn, ast.NotEq)) else "F"
+        starts = cfg.succ(x, bad_label)
+        r: set[int] = set()
+        for s in starts:
+            r |= cfg.reach(s)
+        raises = [n for n in cfg.nodes if n.id in r and isinstance(n.ast, ast.Raise)]
+        back = in_loop and any(n.id in r for n in cfg.nodes if n.kind == "join")
+        leaves = bool(starts) and cfg.exit.id not in r and not back and bool(raises) and all(astq.raised_name(n.ast) in OSERRORS for n in raises)  # type: ignore[arg-type]
+        only_nl = allowed_set <= LINE_TERMINATORS and {b"\r\n", b"\n"} <= allowed_set
+        factt = f"accepted terminators {sorted(allowed_set)} (CRLF and LF accepted, nothing but line terminators: {only_nl}); anything else raises OSError: {leaves}"
+        okt = only_nl and leaves
+        if okt:
+            break
+    return okt, factt, (tcalls[0] if tcalls else tn.ast)
+
+
+def _terminator_helper(ctx: Ctx, fi: FuncInfo, sym: "H.LoopSym", cls: ClassInfo) -> None:
+    """summary of a private method of the de-chunker that touches the underlying stream (helper extracted from
+    readinto): it must read exactly one line on every normally returning path, nothing else, and validate it as the
+    chunk terminator; its raises are OSError.  Anything else it does with the stream cannot be followed -> exit 2."""
+    hcfg = cfg_of(fi)
+    ctx.saw(fi)
+    other = [x for x in ast.walk(fi.node) if sym.under_call(x) and not sym.under_call(x, "readline")]
+    if other:
+        raise AnalysisError(f"{fi.qualname}: helper uses the underlying stream by `{norm(other[0])}` (only a terminator-reading helper can be followed)")
+    nested_self = [c for c in astq.calls(fi.node) if isinstance(c.func, ast.Attribute) and is_self_attr(c.func) and c.func.attr in cls.methods]
+    if nested_self:
+        raise AnalysisError(f"{fi.qualname}: helper calls `{norm(nested_self[0])}` (helpers are followed one level only)")
+    rl = [n for n in hcfg.nodes if n.ast is not None and n.kind in ("stmt", "test") and any(sym.under_call(x, "readline") for x in ast.walk(n.ast))]
+    rl_ids = {n.id for n in rl}
+    for p in H.paths(hcfg, hcfg.entry, [hcfg.exit, hcfg.raise_exit]):
+        if p[-1][0] is not hcfg.exit:
+            continue
+        k = sum(1 for n, _ in p if n.id in rl_ids for x in ast.walk(n.ast) if sym.under_call(x, "readline"))  # type: ignore[arg-type]
+        if k != 1:
+            raise AnalysisError(f"{fi.qualname}: a returning path reads {k} lines from the underlying stream (expected exactly one: the chunk terminator)")
+    for n in rl:
+        again: set[int] = set()
+        for s_, _ in n.succs:
+            again |= hcfg.reach(s_)
+        if n.id in again:
+            raise AnalysisError(f"{fi.qualname}: the line read can execute more than once per call")
+    for tn in rl:
+        okt, factt, site = _terminator_validated(hcfg, tn, sym, in_loop=False)
+        ctx.ob("R19.3", "a missing or wrong chunk terminator raises OSError", okt, factt, fi, site, "terminator validated")
+    for r in astq.raises_of(fi.node):
+        nm = astq.raised_name(r)
+        ctx.ob("R19.3", "readinto reports malformed framing as OSError", nm in OSERRORS, f"`{norm(r)}` in {fi.name}", fi, r, f"raise {nm}")
 
 
 def _size_reader_rules(ctx: Ctx, lr: FuncInfo, under_attr: str) -> None:
